@@ -1971,6 +1971,17 @@ pub mod verif_hooks {
     pub fn direct_link_inner(link: &mut DirectLink) -> &mut Link {
         &mut link.0
     }
+
+    /// A probe that reports the number of slots in `updates` and in
+    /// `suspended` of this gate (and of its clones, which share both maps)
+    /// after the gate itself has been handed to a unit.
+    pub fn gate_slots_probe(
+        gate: &Gate,
+    ) -> Box<dyn Fn() -> (usize, usize) + Send + Sync> {
+        let updates = gate.updates.clone();
+        let suspended = gate.suspended.clone();
+        Box::new(move || (updates.len(), suspended.len()))
+    }
 }
 
 //------------ Tests ---------------------------------------------------------
